@@ -114,7 +114,12 @@ def check_case(col, cfgname, t, only=None):
                                    Xi=np.array([fr[i] / 1e6 * (k + 1) for k in range(nm)]), Phi=phi.copy())
             setups.append(ss)
         ms = MultiSetup_PoSER(ref_ind=[list(r) for r in reflist], single_setups=setups, names=["grp"])
-        res = ms.merge_results()["grp"]
+        merged = ms.merge_results()
+        if not isinstance(merged, dict) or "grp" not in merged:
+            col.violation("MultiSetup_PoSER.merge_results/no_result_for_group", f"merge_results returned {type(merged).__name__} "
+                          f"{list(merged) if isinstance(merged, dict) else merged} for the algorithm group 'grp'", rep)
+            return
+        res = merged["grp"]
         exp = expected(t, True)
         kind = classify(np.asarray(res.Phi), exp, nref)
         if kind:
